@@ -35,16 +35,14 @@ def explore(ch, params, out):
     n = params.get("samples", 2)
     keys = params.get("keys", ["a"])
     sym = params.get("symbolic_leaves", True)
-    shapes = [(k1, k2) for k1 in kinds for k2 in kinds]
-    first = ch.choose("kinds(s0.a,s1.a)", shapes, shard=True)
+    slots = [(i, key) for i in range(n) for key in keys]
     cfg = {"kinds": [dict() for _ in range(n)]}
-    cfg["kinds"][0][keys[0]] = first[0]
-    if n > 1:
-        cfg["kinds"][1][keys[0]] = first[1]
-    for i in range(n):
-        for key in keys:
-            if key not in cfg["kinds"][i]:
-                cfg["kinds"][i][key] = ch.choose(f"kind(s{i}.{key})", kinds)
+    shapes = [(k1, k2) for k1 in kinds for k2 in kinds]
+    first = ch.choose(f"kinds({slots[0]},{slots[1]})", shapes, shard=True)
+    for (i, key), kind in zip(slots[:2], first):
+        cfg["kinds"][i][key] = kind
+    for i, key in slots[2:]:
+        cfg["kinds"][i][key] = ch.choose(f"kind(s{i}.{key})", kinds)
     cfg["merge"] = ch.choose("merge", params.get("merge", ["default"]))
     cfg["registry"] = ch.choose("registry", params.get("registries", ["default"]))
     cfg["dkf"] = ch.flag("dict_keys_fields=[a]") if params.get("dkf") else False
@@ -186,6 +184,9 @@ def parts(tier):
                shards=16, timeout=170, path_timeout=30, mode="CH-P+CH-E"),
             CH("triples", "vflib.props.c01:scen_accept",
                {"kinds": "KINDS_INTERACT", "samples": 3, "keys": ["a"], "frameworks": ["pydantic", "attrs"]},
+               shards=16, timeout=170, path_timeout=30, mode="CH-P+CH-E"),
+            CH("two_nested_fields", "vflib.props.c01:scen_accept",
+               {"kinds": "KINDS_NEST", "samples": 1, "keys": ["a", "b"], "merge": ["default", "p50n2"]},
                shards=16, timeout=170, path_timeout=30, mode="CH-P+CH-E"),
         ]
     return []
